@@ -193,7 +193,9 @@ Record pres := {
   r_kw_maxnb : option Z; r_kw_temp : Z; r_kw_mmap : Z; r_kw_prefer : Z; r_kw_require : Z; r_kw_verbose : Z
 }.
 
-Definition default_n_jobs (k : ckind) : Z := 1.   (* ParallelBackendBase.default_n_jobs, never overridden *)
+(* <class>.default_n_jobs: 1 in ParallelBackendBase and every built-in backend; the user-defined process backend of the check
+   declares default_n_jobs = -1 (as the dask backend does) *)
+Definition default_n_jobs (k : ckind) : Z := match k with BCustProc => -1 | _ => 1 end.
 
 (* Parallel.__init__ (return_as='list', batch_size='auto', no backend_kwargs), given the function that plays
    _get_active_backend (the hand model, or the one regenerated from the source: Proofs/Config.v) *)
@@ -394,3 +396,10 @@ Definition orun (passes : bool) (ops : list oop) (o : pobj) : pobj := fold_left 
 Definition loky_folder_used (key_has_tf new_mgr_on_reuse : bool) (prev given : Z) (other_args_equal : bool) : Z :=
   let reused := other_args_equal && (negb key_has_tf || (prev =? given)) in
   if reused && negb new_mgr_on_reuse then prev else given.
+
+(* --------------------------------------------------------- nested n_jobs across pickling
+   A task batch carries the pair (nested backend, nested n_jobs) that get_nested_backend() returned; process workers receive
+   the batch through pickle (BatchedCalls.__reduce__), thread workers directly.  [keeps]: the pickled form keeps the pair
+   (otherwise the backward-compatibility branch of BatchedCalls.__init__ makes n_jobs None). *)
+Definition batch_njobs_in_worker (keeps pickled : bool) (nested_njobs : option Z) : option Z :=
+  if pickled && negb keeps then None else nested_njobs.
